@@ -42,6 +42,8 @@ def main(argv: list[str]) -> int:
             mod.check(run)
         except AnalysisError as e:
             run.analysis_errors.append(str(e))
+        if args.tier == "thorough" and not args.repo and not args.replay:
+            _thorough_selftest(run, args.prop)
         return run.finalize(replay_key)
     except AnalysisError as e:
         print(f"ANALYSIS-ERROR property={args.prop} {e}")
@@ -50,6 +52,32 @@ def main(argv: list[str]) -> int:
         print(f"ANALYSIS-ERROR property={args.prop} internal error in the checker:")
         traceback.print_exc(file=sys.stdout)
         return 2
+
+
+def _thorough_selftest(run: Run, prop: str) -> None:
+    """thorough tier: besides the rules on the tree itself, re-run them on every both-ways variant of this property (one
+    edit each on a scratch copy of the CURRENT tree under a mkdtemp directory, removed afterwards). The outcome is evidence
+    about the checker's discrimination on today's code; it never changes the exit code (a variant whose anchor text moved
+    is reported as stale, not as a failure of the property)."""
+    from concurrent.futures import ThreadPoolExecutor
+
+    from . import selftest
+
+    variants = selftest.load_variants(prop)
+    if not variants:
+        run.extra["selftest"] = {"variants": 0}
+        return
+    with ThreadPoolExecutor(max_workers=min(16, os.cpu_count() or 4)) as ex:
+        results = list(ex.map(lambda v: selftest.run_variant(prop, v), variants))
+    by: dict[str, int] = {}
+    for r in results:
+        by[r["status"]] = by.get(r["status"], 0) + 1
+    fire = sum(1 for v in variants if v["expect"] != "silent")
+    run.extra["selftest"] = {
+        "variants": len(variants), "breaking_variants": fire, "behaviour_preserving_variants": len(variants) - fire, "status_counts": by,
+        "not_ok": [{"id": r["id"], "status": r["status"], "detail": r.get("detail", "")[:300]} for r in results if r["status"] != "OK"],
+    }
+    run.note(f"thorough: {len(variants)} both-ways variants of the current tree re-checked on scratch copies: {by}")
 
 
 def setup() -> int:
